@@ -112,7 +112,7 @@ package snaps
 // ---- storage (verified in mode lines; used by the match* bodies through these postconditions) ----
 //@ func getPrevSnapshot(testID, snapPath) returns (snap, line, err)
 //@   mode lines
-//@   requires held[_m] == 0
+//@   requires held[_m] == 0 && fsguard[snapPath] == _m
 //@   requires isLine(testID) && testID != "" && testID != "---"
 //@   assigns nothing
 //@   ensures [lock] held[_m] == 0
@@ -172,8 +172,15 @@ package snaps
 //@ func addNewSnapshot(testID, snapshot, snapPath) returns (err)
 //@   mode lines
 //@   requires isLine(testID)
+//@   requires fsguard[snapPath] == _m && held[_m] == 0 && !quiescent
+//@   let F = old(fsx[snapPath]) ? old(fsc[snapPath]) : ""
+//@   let F2 = fsc[snapPath]
 //@   assigns fsx[snapPath], fsc[snapPath], fsdir, fswrites, alloc
-//@   ensures [content] err == nil ==> fsx[snapPath] && fsc[snapPath] == (old(fsx[snapPath]) ? old(fsc[snapPath]) : "") + "\n" + testID + "\n" + snapshot + "\n---\n"
+//@   ensures [lock] held[_m] == 0
+//@   ensures [content] err == nil ==> fsx[snapPath] && F2 == F + "\n" + testID + "\n" + snapshot + "\n---\n"
+//@   ensures [rt] err == nil && testID != "" && testID != "---" && wf(F) && !found(F, testID) && noEND(snapshot) ==> found(F2, testID) && body(F2, testID) == snapshot
+//@   ensures [wf] err == nil ==> wf(F2)
+//@   ensures [iso] err == nil && testID != "---" && wf(F) ==> (forall id2 Str: id2 != testID && id2 != "" && id2 != "---" && lacks(snapshot, id2) ==> found(F2, id2) == found(F, id2) && (found(F, id2) ==> body(F2, id2) == body(F, id2)))
 //@
 //@ func updateSnapshot(testID, snapshot, snapPath) returns (err)
 //@   mode lines
